@@ -274,6 +274,24 @@ def _mesh_checks(ck, m, rng, tier, rules):
                     "variables that are not defined on faces are rejected rather than silently integrated",
                     {"mesh": name, "dims": [dim], "n_face": nf, dim: n}, res)
 
+        # a dataset whose FIRST variable (the one integrated) lives on nodes / edges while another variable is face-centred
+        ds2 = ux.UxDataset({"psi": ux.UxDataArray(vals, dims=[dim], uxgrid=g, name="psi"),
+                            "rho": ux.UxDataArray(_values(rng, (nf,), "float64"), dims=["n_face"], uxgrid=g, name="rho")}, uxgrid=g)
+        ck.cases += 1
+        try:
+            res = ds2.integrate()
+        except ValueError:
+            pass
+        except Exception as e:  # noqa
+            ck.fail(f"dataset_rejects_non_face:{dim}:{eq}:with_a_face_variable:raises_{type(e).__name__}",
+                    f"UxDataset.integrate raises {type(e).__name__}: {str(e)[:120]}",
+                    "variables that are not defined on faces are rejected (ValueError)", {"mesh": name, "variables": {"psi": [dim], "rho": ["n_face"]}})
+        else:
+            ck.fail(f"dataset_rejects_non_face:{dim}:{eq}:with_a_face_variable:silently_integrated",
+                    f"UxDataset.integrate integrates its first variable, dimensioned {dim}, because another variable carries n_face",
+                    "variables that are not defined on faces are rejected rather than silently integrated",
+                    {"mesh": name, "variables": {"psi": [dim], "rho": ["n_face"]}, "n_face": nf, dim: n}, res)
+
     # ---- face dimension not last: integrate over the faces or reject, never over another dimension
     g = grid_of(m)
     for other, size, tag in (("lev", nf, "other_dim_has_n_face_entries"), ("lev", nf + 1, "other_dim_differs")):
